@@ -56,8 +56,13 @@ func ZZ_C14_statusFn() {
 		ds.Status.Conditions = append(ds.Status.Conditions, datadoghqv1alpha1.ExtendedDaemonSetCondition{Type: datadoghqv1alpha1.ConditionTypeEDSCanaryPaused, Status: st, Reason: "CrashLoopBackOff",
 			LastTransitionTime: metav1.NewTime(nondet.Base().Add(-time.Hour)), LastUpdateTime: metav1.NewTime(nondet.Base().Add(-time.Hour))})
 	}
-	if nondet.Bool("prev.canaryBlock") {
+	// the canary block left by the previous reconcile names this canary's replica set, or the one
+	// of an earlier canary that another template edit superseded
+	switch nondet.String("prev.canaryBlock", "none", "foo-b", "foo-earlier") {
+	case "foo-b":
 		ds.Status.Canary = &datadoghqv1alpha1.ExtendedDaemonSetStatusCanary{ReplicaSet: "foo-b", Nodes: []string{"node0"}}
+	case "foo-earlier":
+		ds.Status.Canary = &datadoghqv1alpha1.ExtendedDaemonSetStatusCanary{ReplicaSet: "foo-earlier", Nodes: []string{"node0"}}
 	}
 	nondet.Fact("noCanaryStrategy", !withCanary)
 	nondet.Fact("prevCanaryBlock", ds.Status.Canary != nil)
